@@ -61,7 +61,7 @@ def run(prog, rep, tier, cfg):
         X.guard('K6b', 'change_owner:same-address', cl, wo,
                 m_rel('ne', ['F:ChangeOwnerAddressParams.new_owner'], ['F:MinerInfo.pending_owner_address'], False),
                 'new_address != pending_address => Err')
-        X.value_from('K10', 'change_owner:new-owner-is-pending', cl, X.stmt_rvalue_atoms(cl, 'MinerInfo', 'owner'), ['F:MinerInfo.pending_owner_address'], 'value written to info.owner')
+        X.value_from('K10', 'change_owner:new-owner-is-pending', cl, X.stmt_rvalue_atoms(cl, 'MinerInfo', 'owner'), ['F:MinerInfo.pending_owner_address'], 'value written to info.owner', copy=True)
         # the proposal arm: pending := Some(new_address) only after validating the current owner
         props = [(bb, a) for (bb, a) in X.stmt_rvalue_atoms(cl, 'MinerInfo', 'pending_owner_address') if has_atom(a, 'F:ChangeOwnerAddressParams.new_owner')]
         rep.need('K6', 'change_owner:proposal-site', len(props) == 1, 'one proposal write pending_owner_address = Some(new_address) expected, found %d' % len(props), X.loc(cl))
@@ -84,7 +84,7 @@ def run(prog, rep, tier, cfg):
     X.guard('K6b', 'worker:effective-epoch', PW, ww, m_rel('lt', ['C:Runtime::curr_epoch'], ['F:WorkerKeyChange.effective_at'], False),
             'curr_epoch < effective_at => no change', success_only=False)
     X.guard('K6b', 'worker:pending-some', PW, ww, m_variant(['F:MinerInfo.pending_worker_key'], 1), 'pending_worker_key is Some', success_only=False)
-    X.value_from('K10', 'worker:new-worker-from-pending', PW, X.stmt_rvalue_atoms(PW, 'MinerInfo', 'worker'), ['F:WorkerKeyChange.new_worker'], 'value written to info.worker')
+    X.value_from('K10', 'worker:new-worker-from-pending', PW, X.stmt_rvalue_atoms(PW, 'MinerInfo', 'worker'), ['F:WorkerKeyChange.new_worker'], 'value written to info.worker', copy=True)
     X.followed_by('K7', 'worker:saved', PW, ww, [c.bb for c in PW.calls if callee_is('State::save_info')(c)], 'worker change is saved')
     CW = X.fn('Actor::change_worker_address', CR)
     cls = main_closure(prog, CW, lambda c: X.write_blocks(c, 'MinerInfo', 'pending_worker_key'))
